@@ -80,6 +80,14 @@ def _fp_desc_dict(d, tokens, depth):
                          for k, v in d.items() if k != LIB_INDEX}}
 
 
+def _fp_matrices(obj):
+    try:
+        m = np.asarray(obj.get_matrices(), dtype=float)
+    except Exception as e:  # noqa: BLE001
+        return ('get_matrices-raises', type(e).__name__)
+    return {'__nd__': ('<f8', tuple(m.shape)), 'bytes': np.ascontiguousarray(m).tobytes()}
+
+
 def fp(obj, tokens=None, via_attr=False, depth=0):
     """structural fingerprint: nested python structure of primitives; arrays bit-exact.
 
@@ -113,7 +121,9 @@ def fp(obj, tokens=None, via_attr=False, depth=0):
                 'dissimilarity_measure': fp(obj.dissimilarity_measure, tokens, True, depth + 1),
                 'descriptors': _fp_desc_dict(obj.descriptors, tokens, depth),
                 'rdm_descriptors': _fp_desc_dict(obj.rdm_descriptors, tokens, depth),
-                'pattern_descriptors': _fp_desc_dict(obj.pattern_descriptors, tokens, depth)}
+                'pattern_descriptors': _fp_desc_dict(obj.pattern_descriptors, tokens, depth),
+                # the square form the object reports is part of its labelled content
+                'matrices': _fp_matrices(obj)}
     if isinstance(obj, DatasetBase):
         out = {'__cls__': type(obj).__name__}
         for k, v in sorted(vars(obj).items()):
